@@ -168,6 +168,17 @@ Definition handle (take_step : chain -> chain) (m : msg) (c : chain) : chain * l
   | SendChain => (c, [ChainObj c])
   end.
 
+(* pinned tree (defect D9): a chain built with display_progress=False cannot be
+   pickled (ChainProgressPrinter.__no_status is name-mangled); the worker raises
+   inside connection.send(chain), nothing is sent.  `picklable` says which chains
+   survive pickling; the repaired code is `handle` (every chain does). *)
+Definition handle_pinned (picklable : chain -> bool) (take_step : chain -> chain) (m : msg) (c : chain)
+  : chain * list reply :=
+  match m with
+  | SendChain => if picklable c then (c, [ChainObj c]) else (c, [])
+  | _ => handle take_step m c
+  end.
+
 (* messages produced for one accepted pair (i, j):
    connections[i].send(Dj); connections[j].send(Di) *)
 Definition swap_pair_msgs (betas : list Q) (data : list (point * Q)) (i j : nat)
